@@ -49,6 +49,12 @@ def c21_runs(tier):
             runs.append(McRun('c21_latch', 'cevent', dict(w=w, pre=pre), bound=bound + 1, opts=dict(opts, spurious=2), budget=40))
     # sanitizer legs on the smallest shapes
     runs.append(McRun('c21_latch', 'latch', dict(c=2, A='2', B='-', aw=0, w=2), bound=2, mode='tsan', opts=opts, budget=40))
+    # message passing through the latch / event under ThreadSanitizer: two counting threads with plain payloads, a waiter
+    # (the arrival that is not the last one is the one whose ordering a weakened count_down would lose)
+    runs.append(McRun('c21_latch', 'latch', dict(c=2, A='1', B='1', aw=0, w=1), bound=2, mode='tsan', opts=opts, budget=60))
+    runs.append(McRun('c21_latch', 'latch', dict(c=3, A='1.1', B='1', aw=0, w=1), bound=1, mode='tsan', opts=opts, budget=60))
+    runs.append(McRun('c21_latch', 'latch', dict(c=3, A='1', B='1', aw=1, w=1), bound=1, mode='tsan', opts=opts, budget=60))
+    runs.append(McRun('c21_latch', 'cevent', dict(w=2, pre=0), bound=1, mode='tsan', opts=dict(opts, spurious=1), budget=60))
     runs.append(McRun('c21_latch', 'cevent', dict(w=2, pre=0), bound=2, mode='asan', opts=dict(opts, spurious=1), budget=40))
     return runs
 
